@@ -78,6 +78,57 @@ Fixpoint utf8_dec (l : bytes) : option str :=
     else None
   end.
 
+(* bytes.decode('utf-8', errors='replace') as CPython does it: an ill-formed sequence is replaced by ONE U+FFFD
+   per maximal prefix of a well-formed sequence (a lead byte together with the continuation bytes that are admissible
+   after it), decoding resumes at the first byte that did not fit *)
+Definition REPL : N := 65533.
+Definition dec_one (b0 : N) (r0 : bytes) : N * bytes :=
+  if b0 <? 128 then (b0, r0)
+  else if in_rng 194 223 b0 then
+    match r0 with
+    | b1 :: r1 => if cont b1 then ((b0 - 192) * 64 + (b1 - 128), r1) else (REPL, r0)
+    | [] => (REPL, r0)
+    end
+  else if in_rng 224 239 b0 then
+    match r0 with
+    | b1 :: r1 =>
+        if ok3 b0 b1 then
+          match r1 with
+          | b2 :: r2 => if cont b2 then ((b0 - 224) * 4096 + (b1 - 128) * 64 + (b2 - 128), r2) else (REPL, r1)
+          | [] => (REPL, r1)
+          end
+        else (REPL, r0)
+    | [] => (REPL, r0)
+    end
+  else if in_rng 240 244 b0 then
+    match r0 with
+    | b1 :: r1 =>
+        if ok4 b0 b1 then
+          match r1 with
+          | b2 :: r2 =>
+              if cont b2 then
+                match r2 with
+                | b3 :: r3 =>
+                    if cont b3
+                    then ((b0 - 240) * 262144 + (b1 - 128) * 4096 + (b2 - 128) * 64 + (b3 - 128), r3)
+                    else (REPL, r2)
+                | [] => (REPL, r2)
+                end
+              else (REPL, r1)
+          | [] => (REPL, r1)
+          end
+        else (REPL, r0)
+    | [] => (REPL, r0)
+    end
+  else (REPL, r0).
+(* every step consumes at least one byte: the length of the input is enough fuel *)
+Fixpoint dec_repl_fuel (n : nat) (l : bytes) : str :=
+  match n, l with
+  | S n', b0 :: r0 => let '(c, rest) := dec_one b0 r0 in c :: dec_repl_fuel n' rest
+  | _, _ => []
+  end.
+Definition utf8_dec_repl (l : bytes) : str := dec_repl_fuel (length l) l.
+
 Definition enc1 (c : N) : bytes :=
   if c <? 128 then [c]
   else if c <? 2048 then [192 + c / 64; 128 + c mod 64]
@@ -232,7 +283,8 @@ Definition dispatch (E : env) (i : nat) (m : msg) : outcome * option call :=
 Definition answer (E : env) (i : nat) (line : bytes) : outcome * option call :=
   match next_message E line with
   | None =>
-      let f := splitsp error_split_max (bstrip line) in     (* raw_msg.strip(), latin-1: code point = byte *)
+      (* raw_msg.strip().decode('utf-8', errors='replace').split(' ', 3) *)
+      let f := splitsp error_split_max (utf8_dec_repl (bstrip line)) in
       (OReply [] (err_reply E i (nth 0%nat f []) (nth_error f 1%nat) decode_error_name), None)
   | Some (a, s, d) =>
       if str_eqb a HELPREQUEST then (OReply help_frames_msgs (HELPREPLY, None, None), None)
